@@ -83,12 +83,18 @@ def main():
                     C10ENV["env"] = c10.Env()
                 case = c10.tuplify(c["case"])
                 outs, extras = c10.run_impl(C10ENV["env"], case)
-                c10.check_case(case, outs, extras)  # only for UNSPEC: how far the outputs are determined
+                # exactly C10's flow: its oracle is run only for UNSPEC (how far the outputs are
+                # determined); its verdict / known-finding classification is C10's business
+                mhz = c.get("mhz")
+                if mhz is None:
+                    c10.check_case(case, outs, extras)
+                else:
+                    c10.check_case(case, outs, extras, set(mhz))
                 kk = c10.trunc_for_model(case)
                 if c10.UNSPEC[0] is not None:
                     kk = min(kk, c10.UNSPEC[0])
                 shown = [o for o in outs[:kk] if o is not None]
-                r = {"out": ";".join(shown), "req": c10.case_line("run", case, kk), "fail": None, "nullfix": True}
+                r = {"out": ";".join(shown), "req": c10.case_line(c["cmd"], case, kk), "fail": None, "nullfix": True}
             else:
                 r = Y.run_case(c, mods)
         except Exception as e:  # noqa: BLE001
